@@ -50,17 +50,37 @@ class Lock:
 
 
 # ------------------------------------------------------------------ Go harness
-# package dir (relative to REPO) -> list of (name in package, file under /verif/harness)
-HARNESS = {
-    "pkg/gossip": [("zz_verif_vh_test.go", "harness/gossip/vh_test.go")],
-}
+# Harness discovery: every directory /verif/harness/<name>/ holds a file PKG naming the /repo package
+# (relative path) its *.go files are injected into (as zz_verif_<name>_<file>), all `//go:build verif`.
+def harness_files(pkg):
+    out = []
+    hroot = os.path.join(VERIF, "harness")
+    for name in sorted(os.listdir(hroot)):
+        d = os.path.join(hroot, name)
+        pf = os.path.join(d, "PKG")
+        if not os.path.isfile(pf) or open(pf).read().strip() != pkg:
+            continue
+        for fn in sorted(os.listdir(d)):
+            if fn.endswith(".go"):
+                out.append(("zz_verif_%s_%s" % (name, fn), os.path.join(d, fn)))
+    return out
+
+
+def harness_pkgs():
+    hroot = os.path.join(VERIF, "harness")
+    pk = set()
+    for name in sorted(os.listdir(hroot)):
+        pf = os.path.join(hroot, name, "PKG")
+        if os.path.isfile(pf):
+            pk.add(open(pf).read().strip())
+    return sorted(pk)
 
 
 def overlay_for(pkgs):
     repl = {}
     for pkg in pkgs:
-        for name, src in HARNESS[pkg]:
-            repl[os.path.join(REPO, pkg, name)] = os.path.join(VERIF, src)
+        for name, src in harness_files(pkg):
+            repl[os.path.join(REPO, pkg, name)] = src
     return {"Replace": repl}
 
 
@@ -91,7 +111,7 @@ class BuildError(Exception):
     pass
 
 
-def run_harness(binary, inp, wd, tag="h", timeout=1200, extra_env=None):
+def run_harness(binary, inp, wd, tag="h", timeout=1200, extra_env=None, test="TestVerifHarness"):
     inpath = os.path.join(wd, tag + ".in.json")
     outpath = os.path.join(wd, tag + ".out.json")
     with open(inpath, "w") as f:
@@ -102,7 +122,7 @@ def run_harness(binary, inp, wd, tag="h", timeout=1200, extra_env=None):
     env.update({"VERIF_IN": inpath, "VERIF_OUT": outpath})
     if extra_env:
         env.update(extra_env)
-    p = sh([binary, "-test.run", "^TestVerifHarness$", "-test.count=1", "-test.timeout", "%ds" % timeout],
+    p = sh([binary, "-test.run", "^" + test + "$", "-test.count=1", "-test.timeout", "%ds" % timeout],
            cwd=wd, env=env, timeout=timeout + 60, check=False)
     if p.returncode != 0 or not os.path.exists(outpath):
         return None, p.stdout[-8000:]
